@@ -8,8 +8,11 @@ import (
 	"bytes"
 	"fmt"
 	"io"
+	"math"
 	"math/rand"
 	"os"
+	"strconv"
+	"strings"
 	"testing"
 
 	"seehuhn.de/go/pdf"
@@ -223,5 +226,773 @@ func TestB2C15Operators(t *testing.T) {
 			}
 		}
 	}
+	t.Logf("B2-CASES %d", cases)
+}
+
+// ---------------------------------------------------------------------------------------
+// Wider operand space: every pair of neighbouring token kinds inside arrays, dictionaries
+// and inline image dictionaries, names and strings over all byte values, randomly nested
+// operands, unknown operator names.  Two oracles: the round trip through the scanner, and
+// c15LexOps, a reader written from ISO 32000 7.2/7.3/8.9.7 that shares no code with the
+// library, applied to the text the writer produced.
+
+// c15Same is equality of operands: same type, same value; a dictionary entry whose value
+// is null counts as absent (ISO 32000 7.3.7).
+func c15Same(a, b pdf.Object) bool {
+	switch x := a.(type) {
+	case nil:
+		return b == nil
+	case pdf.Boolean, pdf.Integer, pdf.Real, pdf.Name, pdf.Operator:
+		return a == b
+	case pdf.String:
+		y, ok := b.(pdf.String)
+		return ok && bytes.Equal(x, y)
+	case pdf.Array:
+		y, ok := b.(pdf.Array)
+		if !ok || len(x) != len(y) {
+			return false
+		}
+		for i := range x {
+			if !c15Same(x[i], y[i]) {
+				return false
+			}
+		}
+		return true
+	case pdf.Dict:
+		y, ok := b.(pdf.Dict)
+		if !ok {
+			return false
+		}
+		n := 0
+		for k, v := range x {
+			if v == nil {
+				continue
+			}
+			n++
+			w, ok := y[k]
+			if !ok || w == nil || !c15Same(v, w) {
+				return false
+			}
+		}
+		for _, w := range y {
+			if w != nil {
+				n--
+			}
+		}
+		return n == 0
+	}
+	return false
+}
+
+// c15Show renders an object for messages only.
+func c15Show(o pdf.Object) string {
+	switch x := o.(type) {
+	case nil:
+		return "null"
+	case pdf.String:
+		return fmt.Sprintf("(%q)", []byte(x))
+	case pdf.Name:
+		return fmt.Sprintf("/%q", string(x))
+	case pdf.Operator:
+		return fmt.Sprintf("keyword:%q", string(x))
+	case pdf.Array:
+		var p []string
+		for _, e := range x {
+			p = append(p, c15Show(e))
+		}
+		return "[" + strings.Join(p, " ") + "]"
+	case pdf.Dict:
+		var p []string
+		for k, e := range x {
+			p = append(p, c15Show(k)+" "+c15Show(e))
+		}
+		return "<<" + strings.Join(p, " ") + ">>"
+	case pdf.Real:
+		return strconv.FormatFloat(float64(x), 'g', -1, 64) + "r"
+	}
+	return fmt.Sprint(o)
+}
+
+// c15Diff describes the first difference between the written and the read operators.
+func c15Diff(want, got []Operator) string {
+	for i := range want {
+		if i >= len(got) {
+			break
+		}
+		if got[i].Name != want[i].Name {
+			return fmt.Sprintf("operator %d: wrote %q, read %q", i, want[i].Name, got[i].Name)
+		}
+		if len(got[i].Args) != len(want[i].Args) {
+			return fmt.Sprintf("operator %d (%s): wrote %d operands, read %d", i, want[i].Name, len(want[i].Args), len(got[i].Args))
+		}
+		for j := range want[i].Args {
+			if !c15Same(want[i].Args[j], got[i].Args[j]) {
+				w, g := c15Show(want[i].Args[j]), c15Show(got[i].Args[j])
+				if len(w) > 120 {
+					w = w[:120] + "..."
+				}
+				if len(g) > 120 {
+					g = g[:120] + "..."
+				}
+				return fmt.Sprintf("operator %d (%s) operand %d: wrote %s, read %s", i, want[i].Name, j, w, g)
+			}
+		}
+	}
+	if len(got) != len(want) {
+		return fmt.Sprintf("wrote %d operators, read %d", len(want), len(got))
+	}
+	return ""
+}
+
+// c15Lexer reads a content stream following ISO 32000-1 7.2 (lexical conventions), 7.3
+// (objects) and 8.9.7 (inline images).  The length of each inline image's data is given,
+// as it is to a reader that knows the image parameters.
+type c15Lexer struct {
+	b       []byte
+	p       int
+	imgLens []int
+}
+
+func c15IsWS(c byte) bool { return c == 0 || c == 9 || c == 10 || c == 12 || c == 13 || c == 32 }
+
+func c15IsDelim(c byte) bool { return strings.IndexByte("()<>[]{}/%", c) >= 0 }
+
+func c15Hex(c byte) int {
+	switch {
+	case c >= '0' && c <= '9':
+		return int(c - '0')
+	case c >= 'a' && c <= 'f':
+		return int(c-'a') + 10
+	case c >= 'A' && c <= 'F':
+		return int(c-'A') + 10
+	}
+	return -1
+}
+
+func (l *c15Lexer) skipWS() {
+	for l.p < len(l.b) {
+		c := l.b[l.p]
+		if c15IsWS(c) {
+			l.p++
+		} else if c == '%' {
+			for l.p < len(l.b) && l.b[l.p] != 10 && l.b[l.p] != 13 {
+				l.p++
+			}
+		} else {
+			break
+		}
+	}
+}
+
+// value reads one object.  If the next token is a keyword or a closing bracket, it is
+// returned in kw instead.
+func (l *c15Lexer) value() (obj pdf.Object, kw string, err error) {
+	l.skipWS()
+	if l.p >= len(l.b) {
+		return nil, "", io.ErrUnexpectedEOF
+	}
+	c := l.b[l.p]
+	switch c {
+	case '/':
+		l.p++
+		var name []byte
+		for l.p < len(l.b) && !c15IsWS(l.b[l.p]) && !c15IsDelim(l.b[l.p]) {
+			if l.b[l.p] == '#' && l.p+2 < len(l.b) && c15Hex(l.b[l.p+1]) >= 0 && c15Hex(l.b[l.p+2]) >= 0 {
+				name = append(name, byte(c15Hex(l.b[l.p+1])<<4|c15Hex(l.b[l.p+2])))
+				l.p += 3
+				continue
+			}
+			name = append(name, l.b[l.p])
+			l.p++
+		}
+		return pdf.Name(name), "", nil
+	case '(':
+		l.p++
+		var str []byte
+		level := 1
+		for {
+			if l.p >= len(l.b) {
+				return nil, "", fmt.Errorf("unterminated string")
+			}
+			c := l.b[l.p]
+			l.p++
+			switch c {
+			case '(':
+				level++
+				str = append(str, c)
+			case ')':
+				level--
+				if level == 0 {
+					return pdf.String(str), "", nil
+				}
+				str = append(str, c)
+			case '\r': // an end-of-line in a string is read as LF
+				if l.p < len(l.b) && l.b[l.p] == '\n' {
+					l.p++
+				}
+				str = append(str, '\n')
+			case '\\':
+				if l.p >= len(l.b) {
+					return nil, "", fmt.Errorf("unterminated string")
+				}
+				e := l.b[l.p]
+				l.p++
+				switch e {
+				case 'n':
+					str = append(str, '\n')
+				case 'r':
+					str = append(str, '\r')
+				case 't':
+					str = append(str, '\t')
+				case 'b':
+					str = append(str, '\b')
+				case 'f':
+					str = append(str, '\f')
+				case '\r':
+					if l.p < len(l.b) && l.b[l.p] == '\n' {
+						l.p++
+					}
+				case '\n':
+				default:
+					if e >= '0' && e <= '7' {
+						v := int(e - '0')
+						for k := 0; k < 2 && l.p < len(l.b) && l.b[l.p] >= '0' && l.b[l.p] <= '7'; k++ {
+							v = v*8 + int(l.b[l.p]-'0')
+							l.p++
+						}
+						str = append(str, byte(v))
+					} else {
+						str = append(str, e) // includes \( \) \; the backslash is ignored otherwise
+					}
+				}
+			default:
+				str = append(str, c)
+			}
+		}
+	case '<':
+		if l.p+1 < len(l.b) && l.b[l.p+1] == '<' {
+			l.p += 2
+			d := pdf.Dict{}
+			for {
+				k, kw, err := l.value()
+				if err != nil {
+					return nil, "", err
+				}
+				if kw == ">>" {
+					return d, "", nil
+				}
+				key, ok := k.(pdf.Name)
+				if kw != "" || !ok {
+					return nil, "", fmt.Errorf("dictionary key is %s%s at %d", kw, c15Show(k), l.p)
+				}
+				v, kw, err := l.value()
+				if err != nil {
+					return nil, "", err
+				}
+				if kw == "]" || kw == ">>" {
+					return nil, "", fmt.Errorf("dictionary key /%s without value at %d", key, l.p)
+				}
+				if kw != "" {
+					v = pdf.Operator(kw)
+				}
+				if v != nil {
+					d[key] = v
+				}
+			}
+		}
+		l.p++
+		var str []byte
+		hi := -1
+		for {
+			if l.p >= len(l.b) {
+				return nil, "", fmt.Errorf("unterminated hex string")
+			}
+			c := l.b[l.p]
+			l.p++
+			if c == '>' {
+				if hi >= 0 {
+					str = append(str, byte(hi<<4))
+				}
+				return pdf.String(str), "", nil
+			}
+			if c15IsWS(c) {
+				continue
+			}
+			h := c15Hex(c)
+			if h < 0 {
+				return nil, "", fmt.Errorf("byte %q in hex string", c)
+			}
+			if hi < 0 {
+				hi = h
+			} else {
+				str = append(str, byte(hi<<4|h))
+				hi = -1
+			}
+		}
+	case '[':
+		l.p++
+		arr := pdf.Array{}
+		for {
+			v, kw, err := l.value()
+			if err != nil {
+				return nil, "", err
+			}
+			if kw == "]" {
+				return arr, "", nil
+			}
+			if kw == ">>" {
+				return nil, "", fmt.Errorf(">> inside array at %d", l.p)
+			}
+			if kw != "" {
+				v = pdf.Operator(kw)
+			}
+			arr = append(arr, v)
+		}
+	case ']':
+		l.p++
+		return nil, "]", nil
+	case '>':
+		if l.p+1 < len(l.b) && l.b[l.p+1] == '>' {
+			l.p += 2
+			return nil, ">>", nil
+		}
+		return nil, "", fmt.Errorf("stray > at %d", l.p)
+	case ')', '{', '}':
+		return nil, "", fmt.Errorf("stray %q at %d", c, l.p)
+	}
+	start := l.p
+	for l.p < len(l.b) && !c15IsWS(l.b[l.p]) && !c15IsDelim(l.b[l.p]) {
+		l.p++
+	}
+	tok := string(l.b[start:l.p])
+	switch tok {
+	case "true":
+		return pdf.Boolean(true), "", nil
+	case "false":
+		return pdf.Boolean(false), "", nil
+	case "null":
+		return nil, "", nil
+	}
+	// 7.3.3: an optional sign, decimal digits, at most one period, at least one digit
+	digits, dots, numeric := 0, 0, true
+	for i := 0; i < len(tok); i++ {
+		switch {
+		case tok[i] >= '0' && tok[i] <= '9':
+			digits++
+		case tok[i] == '.':
+			dots++
+		case i == 0 && (tok[i] == '+' || tok[i] == '-'):
+		default:
+			numeric = false
+		}
+	}
+	if numeric && digits > 0 && dots <= 1 {
+		if dots == 0 {
+			if v, err := strconv.ParseInt(tok, 10, 64); err == nil {
+				return pdf.Integer(v), "", nil
+			}
+		}
+		v, err := strconv.ParseFloat(tok, 64)
+		if err != nil {
+			return nil, "", fmt.Errorf("number %q: %v", tok, err)
+		}
+		return pdf.Real(v), "", nil
+	}
+	return nil, tok, nil
+}
+
+func c15LexOps(data []byte, imgLens []int) ([]Operator, error) {
+	l := &c15Lexer{b: data, imgLens: imgLens}
+	var ops []Operator
+	var args []pdf.Object
+	for {
+		l.skipWS()
+		if l.p >= len(l.b) {
+			break
+		}
+		obj, kw, err := l.value()
+		if err != nil {
+			return ops, err
+		}
+		switch kw {
+		case "":
+			args = append(args, obj)
+		case "]", ">>":
+			return ops, fmt.Errorf("stray %s at %d", kw, l.p)
+		case "BI":
+			if len(args) != 0 {
+				return ops, fmt.Errorf("operands before BI")
+			}
+			d := pdf.Dict{}
+			for {
+				k, kw, err := l.value()
+				if err != nil {
+					return ops, err
+				}
+				if kw == "ID" {
+					break
+				}
+				key, ok := k.(pdf.Name)
+				if kw != "" || !ok {
+					return ops, fmt.Errorf("inline image key is %s%s at %d", kw, c15Show(k), l.p)
+				}
+				v, kw, err := l.value()
+				if err != nil {
+					return ops, err
+				}
+				if kw != "" {
+					return ops, fmt.Errorf("inline image key /%s is followed by %s", key, kw)
+				}
+				if v != nil {
+					d[key] = v
+				}
+			}
+			if len(l.imgLens) == 0 {
+				return ops, fmt.Errorf("unexpected inline image")
+			}
+			n := l.imgLens[0]
+			l.imgLens = l.imgLens[1:]
+			// ID, one white-space byte, the data, white space, EI, then a non-regular byte
+			if l.p >= len(l.b) || !c15IsWS(l.b[l.p]) || l.p+1+n > len(l.b) {
+				return ops, fmt.Errorf("inline image: no white space after ID, or data cut short")
+			}
+			img := l.b[l.p+1 : l.p+1+n]
+			l.p += 1 + n
+			if l.p >= len(l.b) || !c15IsWS(l.b[l.p]) {
+				return ops, fmt.Errorf("inline image: no white space between data and EI")
+			}
+			l.skipWS()
+			if !bytes.HasPrefix(l.b[l.p:], []byte("EI")) || (l.p+2 < len(l.b) && !c15IsWS(l.b[l.p+2]) && !c15IsDelim(l.b[l.p+2])) {
+				return ops, fmt.Errorf("inline image: EI expected at %d", l.p)
+			}
+			l.p += 2
+			ops = append(ops, Operator{Name: OpInlineImage, Args: []pdf.Object{d, pdf.String(img)}})
+		default:
+			ops = append(ops, Operator{Name: OpName(kw), Args: args})
+			args = nil
+		}
+	}
+	if len(args) != 0 {
+		return ops, fmt.Errorf("%d operands without operator at the end", len(args))
+	}
+	return ops, nil
+}
+
+// c15Reporter keeps the output of a failing run short.
+type c15Reporter struct {
+	t       *testing.T
+	count   map[string]int
+	skipped int // cases skipped under a TODO-DEFECT note
+}
+
+func (r *c15Reporter) fail(kind, format string, args ...any) {
+	if r.count == nil {
+		r.count = map[string]int{}
+	}
+	r.count[kind]++
+	if r.count[kind] <= 25 {
+		r.t.Errorf("B2-FAIL "+kind+" "+format, args...)
+	}
+}
+
+func (r *c15Reporter) done() {
+	if r.skipped > 0 {
+		r.t.Logf("TODO-DEFECT cases skipped: %d", r.skipped)
+	}
+	for kind, n := range r.count {
+		if n > 25 {
+			r.t.Errorf("B2-FAIL %s (%d more cases of this kind not shown)", kind, n-25)
+		}
+	}
+}
+
+// c15Check writes ops and reads them again: with the independent reader, and with the
+// scanner in one piece, one stream per operator, and from sources delivering 1 and 7
+// bytes per Read.  kind "X" gives failure kinds X (round trip) and X-writer (the text is
+// not what ISO 32000 prescribes for these operands).
+func c15Check(r *c15Reporter, kind, desc string, ops []Operator) {
+	var whole bytes.Buffer
+	var parts [][]byte
+	var imgLens []int
+	for _, op := range ops {
+		// (an inline image dictionary entry whose value is null used to be written as the
+		// key alone: repaired by the fix recorded in known-findings.txt)
+		var one bytes.Buffer
+		if err := op.Format(&one); err != nil {
+			r.fail(kind+"-format", "%s op=%s: %v", desc, op.Name, err)
+			return
+		}
+		whole.Write(one.Bytes())
+		parts = append(parts, one.Bytes())
+		if op.Name == OpInlineImage {
+			imgLens = append(imgLens, len(op.Args[1].(pdf.String)))
+		}
+	}
+	text := whole.Bytes()
+	if lexed, err := c15LexOps(text, imgLens); err != nil {
+		r.fail(kind+"-writer", "%s: written text is malformed: %v (text %.160q)", desc, err, text)
+	} else if d := c15Diff(ops, lexed); d != "" {
+		r.fail(kind+"-writer", "%s: read by the independent reader: %s (text %.160q)", desc, d, text)
+	}
+	for variant, chunk := range []int{0, 0, 1, 7} {
+		input := [][]byte{text}
+		if variant == 1 {
+			input = parts
+		}
+		got, err := c15ScanChunked(chunk, input...)
+		if err != nil {
+			r.fail(kind, "%s variant=%d: scan error %v (text %.160q)", desc, variant, err, text)
+			return
+		}
+		if d := c15Diff(ops, got); d != "" {
+			r.fail(kind, "%s variant=%d: %s (text %.160q)", desc, variant, d, text)
+			return
+		}
+	}
+}
+
+func c15Env() (thorough bool, rng *rand.Rand) {
+	thorough = os.Getenv("VERIF_TIER") == "thorough"
+	seed := int64(1)
+	fmt.Sscanf(os.Getenv("VERIF_SEED"), "%d", &seed)
+	return thorough, rand.New(rand.NewSource(seed))
+}
+
+// c15Atoms has at least one member for every way a token can begin and end.
+func c15Atoms() []pdf.Object {
+	return []pdf.Object{
+		nil, pdf.Boolean(true), pdf.Boolean(false),
+		pdf.Integer(0), pdf.Integer(1), pdf.Integer(-17), pdf.Integer(math.MaxInt64), pdf.Integer(math.MinInt64),
+		pdf.Real(0.5), pdf.Real(-0.5), pdf.Real(3), pdf.Real(-3), pdf.Real(0), pdf.Real(0.001), pdf.Real(9.100000000000001), pdf.Real(1e20),
+		pdf.Name("F1"), pdf.Name(""), pdf.Name("a b"), pdf.Name("x#y"), pdf.Name("null"), pdf.Name("1"), pdf.Name("A\x00B"), pdf.Name("\xff("),
+		pdf.String("text"), pdf.String(""), pdf.String("(un)balanced)("), pdf.String("\\"), pdf.String("\r\n"), pdf.String("\x00\xff"), pdf.String("\x001"),
+		pdf.Array{}, pdf.Dict{},
+	}
+}
+
+// c15ImageDict returns a minimal inline image dictionary with the given extra entries.
+func c15ImageDict(extra pdf.Dict) pdf.Dict {
+	d := pdf.Dict{"W": pdf.Integer(1), "H": pdf.Integer(1), "BPC": pdf.Integer(8), "CS": pdf.Name("G")}
+	for k, v := range extra {
+		d[k] = v
+	}
+	return d
+}
+
+// TestB2C15Adjacency: every ordered pair (and, for a subset, triple) of operand kinds next
+// to each other as array elements, as dictionary value and following key, in an inline
+// image dictionary, and as top-level operands.
+func TestB2C15Adjacency(t *testing.T) {
+	thorough, _ := c15Env()
+	r := &c15Reporter{t: t}
+	atoms := c15Atoms()
+	cases := 0
+	for i, a := range atoms {
+		for j, b := range atoms {
+			cases++
+			ops := []Operator{
+				{Name: "xyz", Args: []pdf.Object{pdf.Array{a, b}}},
+				{Name: "scn", Args: []pdf.Object{a, b, pdf.Array{a, b, a}, a}},
+				{Name: "BDC", Args: []pdf.Object{pdf.Name("T"), pdf.Dict{"K": a, "L": b, "M": pdf.Array{pdf.Array{a}, b}}}},
+				{Name: "TJ", Args: []pdf.Object{pdf.Array{pdf.Dict{"K": pdf.Array{b, a}}, a, pdf.Array{b}}, pdf.Dict{"N": pdf.Dict{"O": a}, "P": b}}},
+				{Name: OpInlineImage, Args: []pdf.Object{c15ImageDict(pdf.Dict{"X": pdf.Array{a, b}, "Y": pdf.Dict{"Z": a}}), pdf.String("x")}},
+			}
+			c15Check(r, "adjacency", fmt.Sprintf("pair=%d,%d", i, j), ops)
+		}
+	}
+	step := 3
+	if thorough {
+		step = 1
+	}
+	for i := 0; i < len(atoms); i += step {
+		for j := 0; j < len(atoms); j++ {
+			for k := 0; k < len(atoms); k += step {
+				cases++
+				a, b, c := atoms[i], atoms[j], atoms[(k+i)%len(atoms)]
+				ops := []Operator{{Name: "re", Args: []pdf.Object{pdf.Array{a, b, c}, pdf.Dict{"K": pdf.Array{a, b, c}}}}}
+				c15Check(r, "adjacency", fmt.Sprintf("triple=%d,%d,%d", i, j, (k+i)%len(atoms)), ops)
+			}
+		}
+	}
+	// the inline image dictionary holds each atom directly
+	for i, a := range atoms {
+		cases++
+		ops := []Operator{
+			{Name: "q"},
+			{Name: OpInlineImage, Args: []pdf.Object{c15ImageDict(pdf.Dict{"A": a, "X": pdf.Integer(5)}), pdf.String("data")}},
+			{Name: "Q"},
+		}
+		c15Check(r, "adjacency", fmt.Sprintf("image-value=%d", i), ops)
+	}
+	r.done()
+	t.Logf("B2-CASES %d", cases)
+}
+
+// TestB2C15NameStringBytes: names and strings over all byte values, in every position a
+// name or string can take, and at lengths around the limits ISO 32000 mentions.
+func TestB2C15NameStringBytes(t *testing.T) {
+	r := &c15Reporter{t: t}
+	cases := 0
+	nameOps := func(n pdf.Name) []Operator {
+		return []Operator{
+			{Name: "Tf", Args: []pdf.Object{n, pdf.Integer(1)}},
+			{Name: "xyz", Args: []pdf.Object{pdf.Array{n, n, pdf.Integer(1), n}, n, n}},
+			{Name: "BDC", Args: []pdf.Object{n, pdf.Dict{n: n, "Z": pdf.Array{n}, "ZZ": pdf.Dict{n: pdf.Integer(2)}}}},
+			{Name: OpInlineImage, Args: []pdf.Object{c15ImageDict(pdf.Dict{"K" + n: n, "V": pdf.Array{n}}), pdf.String("x")}},
+			{Name: "gs", Args: []pdf.Object{n}},
+		}
+	}
+	strOps := func(s pdf.String) []Operator {
+		return []Operator{
+			{Name: "Tj", Args: []pdf.Object{s}},
+			{Name: "TJ", Args: []pdf.Object{pdf.Array{s, pdf.Integer(-120), s, s}}},
+			{Name: "BDC", Args: []pdf.Object{pdf.Name("T"), pdf.Dict{"K": s, "L": pdf.Array{s}}}},
+			{Name: OpInlineImage, Args: []pdf.Object{c15ImageDict(pdf.Dict{"K": s}), pdf.String("x")}},
+			{Name: "\"", Args: []pdf.Object{pdf.Integer(1), pdf.Integer(2), s}},
+		}
+	}
+	var allBytes []byte
+	for b := 0; b < 256; b++ {
+		allBytes = append(allBytes, byte(b))
+	}
+	for b := 0; b < 256; b++ {
+		c := string([]byte{byte(b)})
+		for _, n := range []pdf.Name{pdf.Name(c), pdf.Name("A" + c + "B"), pdf.Name(c + c), pdf.Name("#" + c), pdf.Name(c + "#"), pdf.Name(c + "0")} {
+			cases++
+			c15Check(r, "name-bytes", fmt.Sprintf("name=%q", string(n)), nameOps(n))
+		}
+		for _, s := range []pdf.String{pdf.String(c), pdf.String("a" + c + "b"), pdf.String(c + c), pdf.String(c + "\\"), pdf.String("\\" + c)} {
+			cases++
+			c15Check(r, "string-bytes", fmt.Sprintf("string=%q", string(s)), strOps(s))
+		}
+	}
+	// pairs of bytes in strings: escapes, octal codes followed by digits, end-of-line pairs
+	for _, b := range []byte{0, 1, 7, 8, 9, 10, 12, 13, 27, '(', ')', '\\', '0', '7', 127, 128, 255} {
+		for c := 0; c < 256; c++ {
+			cases++
+			s := pdf.String([]byte{b, byte(c)})
+			ops := []Operator{{Name: "Tj", Args: []pdf.Object{s}}, {Name: "TJ", Args: []pdf.Object{pdf.Array{append(append(pdf.String{}, s...), '7'), s}}}}
+			c15Check(r, "string-bytes", fmt.Sprintf("string=%q", string(s)), ops)
+		}
+	}
+	// texts that look like escapes, and lengths
+	for _, n := range []string{"#00", "#41", "#4", "#", "##", "#G0", "#0G", "A#20B", "#2300", "#zz#41#", "\x00", "\x00\x00", "#\x00", string(allBytes),
+		strings.Repeat("n", 126), strings.Repeat("n", 127), strings.Repeat("n", 128), strings.Repeat("\x00", 127), strings.Repeat("#", 500), strings.Repeat("\xfe ", 1000)} {
+		cases++
+		c15Check(r, "name-bytes", fmt.Sprintf("name=%.40q len=%d", n, len(n)), nameOps(pdf.Name(n)))
+	}
+	for _, s := range []string{"\\000", "\\n", "\\(", "\\)", "\\\r\n", "\\\n", "(", ")", "((", "))", ")(", "(()", "())", strings.Repeat("(", 100) + strings.Repeat(")", 100),
+		strings.Repeat(")", 50) + strings.Repeat("(", 50), strings.Repeat("(", 300), "<41>", "<<>>", "\r", "\n", "\r\n", "\n\r", "\r\r", "\n\n", "a\r\nb\rc\nd", string(allBytes),
+		strings.Repeat("s", 255), strings.Repeat("s", 256), strings.Repeat("\x00", 1023), strings.Repeat("\\", 1024), strings.Repeat("\xff\r", 3000), strings.Repeat("(\n", 4097)} {
+		cases++
+		c15Check(r, "string-bytes", fmt.Sprintf("string=%.40q len=%d", s, len(s)), strOps(pdf.String(s)))
+	}
+	r.done()
+	t.Logf("B2-CASES %d", cases)
+}
+
+type c15Gen struct {
+	rng   *rand.Rand
+	atoms []pdf.Object
+	keys  []pdf.Name
+}
+
+func (g *c15Gen) value(depth int) pdf.Object {
+	if depth > 0 && g.rng.Intn(3) == 0 {
+		if g.rng.Intn(2) == 0 {
+			arr := make(pdf.Array, g.rng.Intn(6))
+			for i := range arr {
+				arr[i] = g.value(depth - 1)
+			}
+			return arr
+		}
+		d := pdf.Dict{}
+		for n := g.rng.Intn(4); n > 0; n-- {
+			d[g.keys[g.rng.Intn(len(g.keys))]] = g.value(depth - 1)
+		}
+		return d
+	}
+	return g.atoms[g.rng.Intn(len(g.atoms))]
+}
+
+// c15Chain nests v in depth arrays (kind 0), dictionaries (1) or both alternating (2),
+// with a neighbour on each level.
+func c15Chain(kind, depth int, v, neighbour pdf.Object) pdf.Object {
+	for d := 0; d < depth; d++ {
+		if kind == 0 || kind == 2 && d%2 == 0 {
+			v = pdf.Array{neighbour, v, neighbour}
+		} else {
+			v = pdf.Dict{"A": neighbour, "K": v, "Z": neighbour}
+		}
+	}
+	return v
+}
+
+// TestB2C15NestedOperands: random operator sequences over known and unknown operator
+// names with randomly nested operands, inline images with nested dictionary values and
+// with /L, operators with up to 33 operands, and nesting chains.
+func TestB2C15NestedOperands(t *testing.T) {
+	thorough, rng := c15Env()
+	r := &c15Reporter{t: t}
+	g := &c15Gen{rng: rng, atoms: c15Atoms(), keys: []pdf.Name{"K", "MCID", "a b", "", "Type", "#", "\x00", "null"}}
+	names := []OpName{"q", "Q", "cm", "Tj", "TJ", "Tf", "re", "f*", "BDC", "BMC", "DP", "EMC", "'", "\"", "sh", "d1", "BT", "ET", "gs", "scn", "SCN", "Do", "W*", "b*", "m", "l", "c", "h", "T*", "BX", "EX", "ri", "d",
+		"xyz", "Foo", "T**", "n0", "q1", "nul", "tru", "falsey", "R", "obj", "E", "I", "B", "EIx", "IDx", "BIx", "a'", "\"\""}
+	imageData := [][]byte{nil, []byte("x"), []byte("abcd"), []byte("ab EI cd"), []byte("\x00\xffEI\x00"), []byte("Q q\n"), []byte(" \n lead"), []byte("EI"), []byte("end\nE"), []byte("BI ID"), bytes.Repeat([]byte("z"), 600), bytes.Repeat([]byte{0xff, '\n', 'E'}, 1000)}
+	// with /L the reader knows the length: the data may contain anything (ISO 32000-2, 8.9.7)
+	lengthData := [][]byte{[]byte("x"), []byte("ab\nEI cd"), []byte("ab\nEI\ncd"), []byte("tail\nEI"), []byte("\rEI\x00"), []byte("\nEI\n"), []byte("\nEI \nEI \nEI"), []byte("trailing \n"), []byte(" leading"), bytes.Repeat([]byte("\nEI "), 1000)}
+	runs, depth := 300, 4
+	if thorough {
+		runs, depth = 10000, 7
+	}
+	cases := 0
+	for run := 0; run < runs; run++ {
+		cases++
+		var ops []Operator
+		for n := 1 + rng.Intn(6); n > 0; n-- {
+			switch rng.Intn(12) {
+			case 0:
+				d := c15ImageDict(pdf.Dict{"D": g.value(3), g.keys[rng.Intn(3)]: g.value(2)})
+				ops = append(ops, Operator{Name: OpInlineImage, Args: []pdf.Object{d, pdf.String(imageData[rng.Intn(len(imageData))])}})
+			case 1:
+				data := lengthData[rng.Intn(len(lengthData))]
+				key := []pdf.Name{"L", "Length"}[rng.Intn(2)]
+				d := c15ImageDict(pdf.Dict{key: pdf.Integer(len(data)), "D": g.value(2)})
+				ops = append(ops, Operator{Name: OpInlineImage, Args: []pdf.Object{d, pdf.String(data)}})
+			case 2:
+				// many operands (33: a name and 32 colorants, ISO 32000 Annex C / 8.6.6.5)
+				op := Operator{Name: names[rng.Intn(len(names))]}
+				for k := 1 + rng.Intn(33); k > 0; k-- {
+					op.Args = append(op.Args, g.value(1))
+				}
+				ops = append(ops, op)
+			default:
+				op := Operator{Name: names[rng.Intn(len(names))]}
+				for k := rng.Intn(5); k > 0; k-- {
+					op.Args = append(op.Args, g.value(depth))
+				}
+				ops = append(ops, op)
+			}
+		}
+		c15Check(r, "nested", fmt.Sprintf("run=%d", run), ops)
+	}
+	depths := []int{1, 2, 3, 5, 9, 10, 11, 12, 17, 33, 64, 100, 128}
+	if thorough {
+		depths = append(depths, 129, 200, 254, 255)
+	}
+	atoms := c15Atoms()
+	for _, d := range depths {
+		for kind := 0; kind < 3; kind++ {
+			for i, a := range atoms {
+				cases++
+				v := c15Chain(kind, d, a, atoms[(i*7+d)%len(atoms)])
+				ops := []Operator{{Name: "q"}, {Name: "xyz", Args: []pdf.Object{pdf.Integer(1), v, pdf.Name("n")}}, {Name: "Q"}}
+				if d <= 9 {
+					ops = append(ops, Operator{Name: OpInlineImage, Args: []pdf.Object{c15ImageDict(pdf.Dict{"D": v}), pdf.String("x")}})
+				}
+				c15Check(r, "nested", fmt.Sprintf("chain kind=%d depth=%d atom=%d", kind, d, i), ops)
+			}
+		}
+	}
+	r.done()
 	t.Logf("B2-CASES %d", cases)
 }
